@@ -30,8 +30,9 @@ PROP = "C31"
 CFG = {"quick": "MatchStmt_quick", "thorough": "MatchStmt_thorough"}
 BATCH = {"quick": 56, "thorough": 110}     # functions per compiled module
 MAX_TYPED = 2                              # typed variants per statement
-QUARANTINE = {"quick": 6, "thorough": 30}  # statements predicted to break the compiler: one module each
-COMPILE_HAZARDS = ("map-value-wildcard-as",)
+QUARANTINE = {"quick": 3, "thorough": 8}   # functions predicted to break the compiler: one module each, this many per feature
+COMPILE_HAZARDS = ("map-value-wildcard-as",)       # the statement goes into a module of its own
+TYPING_HAZARDS = {"I": ("sequence-pattern-on-subject",)}   # the typed variant goes into a module of its own
 ACTIONS = ("PickSubject", "TryCase", "FallOff", "GuardT", "GuardF", "GuardR", "Body")
 KINDS = ("lit", "val", "cap", "wild", "seq", "map", "cls", "or", "as")
 
@@ -52,24 +53,43 @@ def normalise(p):
     return p
 
 
-def analyse(want, got):
+def obs(x):
+    """the observation: guard / body events with their bindings and the exception type.  The == calls K.E receives are
+    compared between spec and CPython only (PEP 634 leaves evaluation of value patterns undefined)"""
+    return [[e for e in x[0] if e[0] != "eq"], x[1]]
+
+
+def _alias(want, aliases):
+    """what `<value> as name` gives when the name is bound to the pattern's value instead of the subject: all variants"""
+    outs = [[]]
+    for e in want[0]:
+        opts = [[]]
+        for n, v in e[2]:
+            cands = [v] + sorted(aliases.get(n, ()))
+            opts = [o + [[n, c]] for o in opts for c in cands]
+        outs = [o + [[e[0], e[1], b]] for o in outs for b in opts][:64]
+    return [[o, want[1]] for o in outs]
+
+
+def analyse(want, got, aliases=None):
     """-> obs_class or None (equal)"""
     if isinstance(got, str):
         return "crash" if got.startswith("CRASH") else "timeout"
+    want, got = obs(want), obs(got)
     if want == got:
         return None
     (wl, we), (gl, ge) = want, got
     if we != ge:
         return "exception:%s-instead-of-%s" % (ge or "none", we or "none")
+    if aliases and got in _alias(want, aliases):
+        return "as-name-bound-to-pattern-value"
     wb = [e for e in wl if e[0] == "b"]
     gb = [e for e in gl if e[0] == "b"]
     if [e[1] for e in wb] != [e[1] for e in gb]:
         return "selected-case"
     if wb != gb:
         return "bindings"
-    if [e for e in wl if e[0] == "g"] != [e for e in gl if e[0] == "g"]:
-        return "guard-log"
-    return "eq-log"
+    return "guard-log"
 
 
 _RE_CY_ERR = re.compile(r"\.pyx:(\d+):\d+: (.*)")
@@ -188,8 +208,11 @@ def run(tier, seed):
         for c in st["cases"]:
             for p in lm.walk(c["p"]):
                 cnt["pattern:" + p["t"]] += 1
-    need = (["sel%d" % i for i in range(0, 5)] + ["exc:GuardErr", "exc:TypeError", "exc:ValueError", "exc:AttributeError", "with-bindings",
-            "guard-false", "eq-logged"] + ["selected:" + k for k in KINDS] + ["pattern:" + k for k in KINDS + ("star", "starw")])
+    for k in ("lit", "val", "cap", "wild"):
+        cnt["selected:atom"] += cnt["selected:" + k]
+    # classes every run must contain (rarer ones, e.g. exc:ValueError, are reported in the evidence only)
+    need = (["sel%d" % i for i in range(0, 5)] + ["exc:GuardErr", "exc:TypeError", "with-bindings", "guard-false", "eq-logged", "selected:atom"] +
+            ["selected:" + k for k in ("seq", "map", "cls", "or", "as")] + ["pattern:" + k for k in KINDS + ("star", "starw")])
     lacking = [k for k in need if cnt[k] == 0]
     if dead or lacking:
         core.die("vacuous model run: actions never taken %s, case classes without cases %s" % (dead, lacking))
@@ -221,26 +244,30 @@ def run(tier, seed):
             pidx.append(lf)
 
     # ---- C leg: modules with the typed variants; statements predicted to break the compiler get a module each
-    quarantined = [sid for sid in ids if any(h in COMPILE_HAZARDS for h in haz[sid])]
-    qsel = set(core.sample(quarantined, QUARANTINE[tier], rng))
-    funcs = []           # (name, sid, typing)
+    funcs, quarantined = [], collections.defaultdict(list)           # (name, sid, typing)
     for sid in ids:
-        if sid in quarantined:
+        ch = [h for h in COMPILE_HAZARDS if h in haz[sid]]
+        if ch:
+            quarantined[ch[0]].append(("f%d_O" % sid, sid, "O"))
             continue
         rel = lm.relevant_typings(stmts[sid])
         srng = random.Random(seed * 100003 + sid)
         typed = srng.sample(rel, min(MAX_TYPED, len(rel))) if rel else [srng.choice("LTDIE")]
         for ty in ["O"] + sorted(typed):
-            funcs.append(("f%d_%s" % (sid, ty), sid, ty))
+            th = [h for h in TYPING_HAZARDS.get(ty, ()) if h in haz[sid]]
+            if th:
+                quarantined[ty + ":" + th[0]].append(("f%d_%s" % (sid, ty), sid, ty))
+            else:
+                funcs.append(("f%d_%s" % (sid, ty), sid, ty))
+    qsel = [f for k in sorted(quarantined) for f in core.sample(quarantined[k], QUARANTINE[tier], rng)]
     mods = []
     bsz = BATCH[tier]
     for b in range(0, len(funcs), bsz):
         part = funcs[b:b + bsz]
         mods.append({"name": "c31m%d" % (b // bsz), "funcs": [(n, lm.function(n, stmts[sid], ty, True)) for n, sid, ty in part]})
-    for sid in sorted(qsel):
-        mods.append({"name": "c31q%d" % sid, "funcs": [("f%d_O" % sid, lm.function("f%d_O" % sid, stmts[sid], "O", True))]})
-    finfo = {n: (sid, ty) for n, sid, ty in funcs}
-    finfo.update({"f%d_O" % sid: (sid, "O") for sid in qsel})
+    for n, sid, ty in sorted(qsel):
+        mods.append({"name": "c31q%d%s" % (sid, ty), "funcs": [(n, lm.function(n, stmts[sid], ty, True))]})
+    finfo = {n: (sid, ty) for n, sid, ty in funcs + qsel}
 
     with concurrent.futures.ThreadPoolExecutor(2) as ex:
         fut_p = ex.submit(lm.run_items, wd, "P", ppath, subjects, pitems, "p")
@@ -258,9 +285,12 @@ def run(tier, seed):
         return rep.finish()
 
     def describe(sid, ty, lf=None):
-        d = {"typing": ty, "hazards": ",".join(haz[sid]), "top_kinds": ",".join(lm.top_kinds(stmts[sid]))}
+        """descriptor from the spec side: typing, features of the statement, and (per run) the features of the cases the
+        reference run reaches (it ends in case lf.ci), expected outcome, class of the subject"""
+        d = {"typing": ty, "hazards": ",".join(sorted(haz[sid])), "top_kinds": ",".join(lm.top_kinds(stmts[sid]))}
         if lf is not None:
-            d.update({"expected_exc": lf["exc"], "expected_sel": lf["sel"], "subject_class": lm.subject_class(subjects[lf["si"] - 1])})
+            d.update({"hazards_reached": ",".join(sorted(h for h, j in haz[sid].items() if j <= lf["ci"])),
+                      "expected_exc": lf["exc"], "expected_sel": lf["sel"], "subject_class": lm.subject_class(subjects[lf["si"] - 1])})
         return d
 
     def c_leg(m):
@@ -283,7 +313,7 @@ def run(tier, seed):
     with concurrent.futures.ThreadPoolExecutor(jobs) as ex:
         resC = list(ex.map(c_leg, mods))
 
-    n_eval = n_agree = n_dropped = 0
+    n_eval = n_agree = n_dropped = n_skipped = n_eqdiff = 0
     nontrivial = set()
     ok_samples = []
     classes = collections.Counter()
@@ -294,7 +324,8 @@ def run(tier, seed):
             oc = "invalid-c" if stage == "cc" else "cython-error"
             classes[oc] += 1
             n_dropped += 1
-            rep.disagree(describe(sid, ty), oc, {"source": lm.function(name, stmts[sid], ty, True), "stage": stage, "message": msg})
+            rep.disagree(dict(describe(sid, ty), message=msg[:120]), oc,
+                         {"source": lm.function(name, stmts[sid], ty, True), "stage": stage, "message": msg})
         if res is None:
             b = m["build"]
             if any(n not in m["dropped"] for n, _ in m["funcs"]):
@@ -305,13 +336,21 @@ def run(tier, seed):
         idx, out = res
         for (sid, ty, lf), got in zip(idx, out):
             want = expected(lf)
+            if got == "SKIPPED":       # the function crashed lib_match.CRASH_CAP times (each reported); its other items were not run
+                n_skipped += 1
+                continue
             n_eval += 1
             per_typing[ty] += 1
             if lf["sel"] or lf["exc"]:
                 nontrivial.add((sid, ty, lf["si"], "".join(lf["gs"])))
-            oc = analyse(want, got)
+            aliases = {}
+            for j in range(1, min(lf["ci"], len(stmts[sid]["cases"])) + 1):
+                aliases.update(lm.as_value_aliases(stmts[sid], j))
+            oc = analyse(want, got, aliases)
             if oc is None:
                 n_agree += 1
+                if got != want:
+                    n_eqdiff += 1
                 if len(ok_samples) < 4000 and (lf["sel"] or lf["exc"]):
                     ok_samples.append((sid, ty, lf, got))
                 continue
@@ -322,7 +361,7 @@ def run(tier, seed):
     # ---- binding demonstration: corrupted expectations must be rejected by the same comparison
     st = {"corrupted": 0, "rejected": 0}
     for sid, ty, lf, got in core.sample(ok_samples, 80, rng):
-        want = expected(lf)
+        want = obs(expected(lf))
         bads = [[want[0], "TypeError" if want[1] != "TypeError" else ""], [want[0][:-1], want[1]] if want[0] else None]
         if want[0] and want[0][-1][0] == "b":
             ev = want[0][-1]
@@ -337,15 +376,17 @@ def run(tier, seed):
     if st["corrupted"] == 0 or st["corrupted"] != st["rejected"]:
         core.die("binding self-test failed: %r" % st)
 
+    rich = [x for x in ok_samples if x[2]["sel"] > 1 and x[2]["log"][-1]["b"]] or ok_samples
     samples = [{"source": lm.function("f", stmts[sid], ty, True), "typing": ty, "subject": subjects[lf["si"] - 1], "guard_outcomes": lf["gs"],
-                "expected": expected(lf), "compiled": got} for sid, ty, lf, got in core.sample(ok_samples, 4, rng)]
+                "expected": expected(lf), "compiled": got} for sid, ty, lf, got in core.sample(rich, 4, rng)]
     cov.update({
         "states": r.generated, "distinct_states": r.distinct, "transitions": r.generated,
         "traces_validated_against_impl": n_eval, "evaluations": n_eval, "agreeing": n_agree,
         "distinct_nontrivial": len(nontrivial), "statements": len(stmts), "subjects": len(subjects), "final_states": n_leaves,
         "functions_compiled": sum(len(m["funcs"]) for m in mods), "modules": len(mods), "evaluations_per_typing": dict(per_typing),
         "cpython_leg_evaluations": len(pitems), "cpython_leg_drift": n_drift, "functions_rejected_by_compiler": n_dropped,
-        "quarantined_statements": len(quarantined), "quarantined_compiled": len(qsel),
+        "not_run_after_repeated_crash": n_skipped, "eq_call_log_differs_not_judged": n_eqdiff,
+        "quarantined_functions": {k: len(v) for k, v in quarantined.items()}, "quarantined_compiled": len(qsel),
         "phase_s": phase_s, "case_classes": dict(cnt), "difference_classes": dict(classes), "selftest": st,
         "rule": "every statement the spec generates for the seed (<= 4 cases, nesting <= MaxDepth) x every subject of the universe x every "
                 "sequence of guard outcomes {T, F, R} the run reaches; compiled untyped and in <= %d typed variants restricted to the "
